@@ -78,7 +78,7 @@ LINE_SET = [
 # '#*' opens a BLOCK comment in the XGo scanner.  A trailing comment that ends on a later line is not re-attached by
 # sortSpecs (it ends after the run's last line) and stays where it was while its spec moves; if that leaves it behind a
 # general comment on the same line ("z" /**/ #* h ... */) the scanner's findLineEnd does not see the '#' comment, the
-# implicit semicolon is lost and the formatted output does not parse (see known_findings.d/C23.txt).  Deterministic set;
+# implicit semicolon is lost and the formatted output does not parse (see known_findings.txt).  Deterministic set;
 # the seeded/mutating generator stays out of '#*'.
 HASHSTAR_SET = [
     'import (\n\t"z" /**/\n\t"a" #* h\n\tx */\n\t"b"\n)\n',
@@ -89,7 +89,7 @@ HASHSTAR_SET = [
 ]
 # two specs on one line: sortSpecs merges one line per removed duplicate, which can swallow the blank
 # line after the run and glue two groups together, or panic on the last line of the file (see
-# known_findings.d/C23.txt); deterministic set
+# known_findings.txt); deterministic set
 SAMELINE_SET = [
     'import (\n\t"z"; "z"\n\n\t"a"\n)\n',
     'import (\n\t"y"\n\t"z"; "z"\n\n\t"a"\n)\n',
